@@ -86,6 +86,103 @@ theorem C12_step_is_source (P : Env Val) (s : St Val) :
    fun hl => Model.PropL.handlerObserve_is_source P hl s,
    fun old => Model.PropL.tpcRc_is_source P s old, rfl, rfl⟩
 
+/-- The C handlers behind a property, read from ctraits.c as data (`Generated.PropertyProg.handlers`),
+and the Python glue that decides which of them is installed:
+
+* a set / delete of the property in the model (`setProp`) is what the installed handlers do, for every
+  environment, state and setter arity 0-3: deleting raises TraitError before anything else; without a
+  validator `setattr_property[set_n]` calls `traitd->delegate_prefix` (the setter); with one,
+  `setattr_validate_property` calls `traitd->validate` first, fails if it fails, and hands the VALIDATED
+  value to the same `setattr_property[set_n]` (installed as `post_setattr`); a failing setter propagates;
+* handler `n` of the setter / validator tables passes `()`, `(value)`, `(obj, value)`, `(obj, name, value)`,
+  handler `n` of the getter table the first `n` of `(obj, name, trait)`, the getters call `trait->delegate_name`, the
+  validators `trait->py_validate`; the tables are indexed by `get_n` / `set_n` / `validate_n` and
+  `delegate_name, delegate_prefix, py_validate := get, set, validate`;
+* `CTrait.property_fields` hands `_set_property` each callable followed by its arity,
+  `len(inspect.signature(f).parameters)` (`0` for `None`), in the order `(fget, fset, fvalidate)`. -/
+def setterArgs : Nat → List Model.PropL.HArg
+  | 0 => []
+  | 1 => [.value]
+  | 2 => [.obj, .value]
+  | _ => [.obj, .name, .value]
+
+theorem C12_property_handlers_are_source :
+    (∀ (Val : Type) (P : Env Val), P.setN ≤ 3 → ∀ s a,
+        setProp P s a = Model.PropL.setSrc Generated.PropertyProg.handlers P s a)
+    ∧ (∀ n, n ≤ 3 →
+        Model.PropL.viaTable Generated.PropertyProg.handlers.install.getTable Generated.PropertyProg.handlers.get n
+          = some ⟨.trait, .delegate_name, [.obj, .name, .trait].take n⟩
+        ∧ (Model.PropL.viaTable Generated.PropertyProg.handlers.install.setTable Generated.PropertyProg.handlers.set n).map
+            (fun h => (h.call.who, h.call.field, h.call.args))
+          = some (.traitd, .delegate_prefix, setterArgs n)
+        ∧ Model.PropL.viaTable Generated.PropertyProg.handlers.install.validateTable
+            Generated.PropertyProg.handlers.validate n
+          = some ⟨.trait, .py_validate, setterArgs n⟩)
+    ∧ (Generated.PropertyProg.handlers.install.getIndexedBy, Generated.PropertyProg.handlers.install.plainSetIndexedBy,
+        Generated.PropertyProg.handlers.install.validatedPostIndexedBy,
+        Generated.PropertyProg.handlers.install.validatedValidateIndexedBy,
+        Generated.PropertyProg.handlers.install.validatedSetattr, Generated.PropertyProg.handlers.install.validatedWhen)
+        = ("get_n", "set_n", "set_n", "validate_n", "setattr_validate_property", "validate != Py_None")
+    ∧ Generated.PropertyProg.handlers.install.fields
+        = [("delegate_name", "get"), ("delegate_prefix", "set"), ("py_validate", "validate")]
+    ∧ Generated.PropertyProg.noneArity = 0
+    ∧ Generated.PropertyProg.arityOf = "len(signature.parameters)"
+    ∧ Generated.PropertyProg.pairOrder = ["callable", "arity"]
+    ∧ Generated.PropertyProg.fieldsOrder = ["fget", "fset", "fvalidate"] := by
+  refine ⟨fun _ P hn s a => Model.PropL.setProp_is_source P hn s a, ?_, rfl, rfl, rfl, rfl, rfl, rfl⟩
+  intro n hn
+  have h4 : n = 0 ∨ n = 1 ∨ n = 2 ∨ n = 3 := by omega
+  rcases h4 with h | h | h | h <;> subst h <;> decide
+
+/-- Never stale also after a SET through the property's own setter: whatever dependency writes the setter
+performs (any list of mutations, computed from the heap and the validated value), the invariant holds
+afterwards and the next read returns `g` of the new heap; a rejected value, a read-only property and a
+deletion change nothing. -/
+theorem C12_setter_never_stale (P : Env Val) (g : Heap → Val) (hG : PartialGetter P.G g)
+    (hD : DependsOnly g P.E P.root) (hS : ObserveSound P) (s : St Val) (a : SetArg) (hi : Inv P g s) :
+    Inv P g (setProp P s a).2
+    ∧ (∀ v, (readProp P (setProp P s a).2).1 = .ok v → v = g (setProp P s a).2.heap)
+    ∧ (∀ e, (setProp P s a).1 = .error e → (setProp P s a).2 = s) := by
+  have h := setProp_inv P g hG hD hS s a hi
+  refine ⟨h, fun v hv => readProp_value P g hG _ h v hv, ?_⟩
+  have hc : ∀ x e, (callSetter P s x).1 = .error e → (callSetter P s x).2 = s := by
+    intro x e
+    unfold callSetter
+    cases P.fset with
+    | none => simp
+    | some f => simp only; cases f s.heap (if P.setN = 0 then none else some x) <;> simp
+  intro e
+  cases a with
+  | delete => simp [setProp]
+  | value x =>
+    simp only [setProp]
+    cases P.fvalidate with
+    | none => exact hc x e
+    | some fv =>
+      simp only
+      cases fv x with
+      | error e' => simp
+      | ok y => exact hc y e
+
+/-- Non-vacuity of the setter theorems: `exKids` with a validated arity-2 setter that writes the value to
+`value` of the first kid; a set of 7 on the fixture state changes node 2, pops the cache, announces
+`(9, 11)`; deleting and a rejected value change nothing. -/
+example :
+    let P : Env Int := { exKids with
+      fset := some (fun h x => match (h 0).kids, x with
+        | k :: _, some v => .ok [⟨k, .scalar .value v, false⟩]
+        | _, _ => .ok []),
+      fvalidate := some (fun x => if x < 0 then .error .traitError else .ok x) }
+    (setProp P exKidsFinal (.value 7)).1 = .ok ()
+    ∧ (readProp P (setProp P exKidsFinal (.value 7)).2).1 = .ok 11
+    ∧ ((setProp P exKidsFinal (.value 7)).2.notes.drop exKidsFinal.notes.length).map (fun n => (n.old, n.new))
+        = [(.val 9, 11)]
+    ∧ (setProp P exKidsFinal (.value (-1))).1 = .error .traitError
+    ∧ (setProp P exKidsFinal .delete).1 = .error .traitError
+    ∧ Model.PropL.setSrc Generated.PropertyProg.handlers P exKidsFinal (.value 7) = setProp P exKidsFinal (.value 7) := by
+  refine ⟨by decide, by decide, by decide, by decide, by decide, ?_⟩
+  exact (Model.PropL.setProp_is_source _ (by decide) _ _).symm
+
 /-- Never stale, stated on the interpreted source: after any history, running the translated
 `cached_property.decorator` returns what the getter computes from the heap as it is now, and
 running the translated observer handler leaves the invariant intact. -/
